@@ -54,6 +54,8 @@ impl FeoxStore {
                 }
                 let old_size = old_record_arc.calculate_size();
                 let reservation = self.reserve_memory(new_size.saturating_sub(old_size))?;
+                #[cfg(feoxdb_verif)]
+                crate::verif::emit("pub", &key_vec, timestamp, new_record.ttl_expiry.load(Ordering::Acquire), 2);
                 old_record_arc.link_successor(&new_record);
                 old_record_arc.refcount.store(0, Ordering::Release);
                 entry.insert(Arc::clone(&new_record));
@@ -139,6 +141,8 @@ impl FeoxStore {
                 }
                 let old_size = old_record_arc.calculate_size();
                 let reservation = self.reserve_memory(new_size.saturating_sub(old_size))?;
+                #[cfg(feoxdb_verif)]
+                crate::verif::emit("pub", &key_vec, timestamp, new_record.ttl_expiry.load(Ordering::Acquire), 2);
                 old_record_arc.link_successor(&new_record);
                 old_record_arc.refcount.store(0, Ordering::Release);
                 entry.insert(Arc::clone(&new_record));
@@ -252,6 +256,8 @@ impl FeoxStore {
 
                 let record = Arc::clone(record);
                 let record_size = record.calculate_size();
+                #[cfg(feoxdb_verif)]
+                crate::verif::emit("pub", key, now, 0, 4);
                 self.version_clock.observe(key, now);
                 record.retired_at.store(now, Ordering::Release);
                 record.refcount.store(0, Ordering::Release);
